@@ -5,6 +5,7 @@
                                           applies cleanly, suite still passes, demo passes without / fails with it
   tools/mutants.py run <dir> [ids...]     run the quick checks (default: the property in meta.json) against a scratch
                                           copy of /repo with the patch applied; prints killed/survived per check
+  tools/mutants.py fixed                  revert each recorded fix: commit in a scratch copy; its replay must fail again
   tools/mutants.py all [--props-all]      run every seeded change under /verif/seeded against its own property's check
                                           and write sensitivity/report.json
 
@@ -98,6 +99,39 @@ def main(argv):
         res = run_checks(mdir, ids)
         print(json.dumps(res, indent=1))
         return 0
+    if argv[0] == "fixed":
+        # every 'fixed' entry of known_findings.json: revert its fix in a scratch copy, its replay must fail again
+        kf = json.load(open(os.path.join(HERE, "known_findings.json")))["findings"]
+        rc = 0
+        out = {}
+        for k in kf:
+            if k["status"] != "fixed":
+                continue
+            d = scratch_copy()
+            try:
+                diff = subprocess.run(["git", "-C", "/repo", "diff", k["commit"] + "~1", k["commit"]],
+                                      capture_output=True, text=True, check=True).stdout
+                r = subprocess.run(["patch", "-R", "-p1", "-s"], cwd=d, input=diff, capture_output=True, text=True)
+                if r.returncode != 0:
+                    print(k["id"], "cannot revert:", r.stdout, r.stderr); rc = 1; continue
+                env = dict(os.environ, VERIF_REPO=d)
+                r = subprocess.run([os.path.join(HERE, "vcheck"), "--replay", os.path.join(HERE, k["replay"])],
+                                   cwd=HERE, env=env, capture_output=True, text=True)
+                ok = r.returncode == 1 and "VIOLATION" in r.stdout
+                r2 = subprocess.run([os.path.join(HERE, "vcheck"), "--replay", os.path.join(HERE, k["replay"])],
+                                    cwd=HERE, capture_output=True, text=True)
+                ok2 = r2.returncode == 0
+                out[k["id"]] = {"fails_with_fix_reverted": ok, "passes_on_repaired_tree": ok2}
+                print(k["id"], k["commit"], "reverted ->", "VIOLATION" if ok else f"exit {r.returncode}", "| repaired tree ->",
+                      "held" if ok2 else f"exit {r2.returncode}")
+                if not (ok and ok2):
+                    rc = 1
+            finally:
+                shutil.rmtree(d)
+        os.makedirs(os.path.join(HERE, "sensitivity"), exist_ok=True)
+        with open(os.path.join(HERE, "sensitivity", "fixed_findings.json"), "w") as f:
+            json.dump(out, f, indent=1, sort_keys=True)
+        return rc
     if argv[0] == "all":
         all_props = "--props-all" in argv
         report = {}
